@@ -35,12 +35,12 @@ type c17Case struct {
 	Sep      int       `json:"sep"` // 0 none, 1 insignificant separator (blank line / whitespace) between records
 	// Heap selects the live-heap arm: the pool is cycled 5*K times and the live heap (after two forced collections) is
 	// sampled when K and when 5*K records have been read; "what a Transform retains" must not have grown by more than
-	// c17HeapSlack in between (a leak of a few hundred bytes per record is 10x above that, the unchanged code's noise
-	// 30x below).
+	// c17HeapSlack in between (a leak of 64 bytes per record over the shortest run is above that, the unchanged code's
+	// noise 50x below).
 	Heap bool `json:"heap,omitempty"`
 }
 
-const c17HeapSlack = 1 << 20
+const c17HeapSlack = 64 << 10
 
 func genC17(t *rapid.T) c17Case {
 	c := c17Case{}
@@ -51,8 +51,25 @@ func genC17(t *rapid.T) c17Case {
 		c.K = rapid.SampledFrom([]int{50, 100, 400, 400, 2000}).Draw(t, "nestK")
 		return c
 	}
+	heap := rapid.IntRange(0, 6).Draw(t, "heapArm") == 0
 	c.Shape = gen.DrawShape(t, gen.ShapeOpts{NoJS: true})
 	c.Shape.Grouped = false // a wrapper element per record is not "a fixed set of ancestors": out of C17's domain
+	if heap {
+		// per-record features that make a reader keep private state: namespace declarations on the record elements,
+		// multi-line envelopes
+		switch c.Shape.Format {
+		case "xml":
+			c.Shape.XMLNS = rapid.SampledFrom([]int{2, 3, 4, 2, 0}).Draw(t, "heapXMLNS")
+			if c.Shape.XMLNS == 4 {
+				c.Shape.Envelope = false
+			}
+		case "fixedlength2":
+			if rapid.Bool().Draw(t, "heapMultiRow") {
+				c.Shape.Variant, c.Shape.NSub, c.Shape.SubW = 1, 0, nil
+				c.Shape.FLRows = rapid.SampledFrom([]int{2, 3}).Draw(t, "heapFLRows")
+			}
+		}
+	}
 	if c.Shape.IntCol == 0 && rapid.Bool().Draw(t, "dropIntCol") {
 		c.Shape.IntCol = -1
 	}
@@ -68,7 +85,7 @@ func genC17(t *rapid.T) c17Case {
 	ks = append(ks, 2000, 2000, 2000, 2000, 20000)
 	c.K = ks[rapid.IntRange(0, len(ks)-1).Draw(t, "kIdx")]
 	c.Sep = rapid.IntRange(0, 1).Draw(t, "sep")
-	if rapid.IntRange(0, 9).Draw(t, "heapArm") == 0 {
+	if heap {
 		c.Heap = true
 		c.K = rapid.SampledFrom([]int{1000, 1500, 2500}).Draw(t, "heapK")
 		if c.Shape.Format == "xml" {
@@ -303,11 +320,13 @@ func checkC17Heap(c c17Case, classes []string) obs.Result {
 	if err != nil {
 		return obs.Result{Excluded: "run failed: " + err.Error()}
 	}
-	var h1, h2 uint64
+	// live heap after K, 2K, 3K ... Reads and after the terminal result (the Transform still alive)
+	var hs []uint64
+	var at []int
 	reads, ok := 0, 0
 	for ; reads < 2*len(in)+64; reads++ {
-		if reads == c.K {
-			h1 = c17LiveHeap()
+		if reads > 0 && reads%c.K == 0 {
+			hs, at = append(hs, c17LiveHeap()), append(at, reads)
 		}
 		_, rerr := tr.Read()
 		if rerr != nil && !errs.IsErrTransformFailed(rerr) {
@@ -317,26 +336,33 @@ func checkC17Heap(c c17Case, classes []string) obs.Result {
 			ok++
 		}
 	}
-	// second sample: after the terminal result, the Transform still alive
-	if h1 != 0 && reads >= 2*c.K {
-		h2 = c17LiveHeap()
+	if len(at) > 0 && reads-at[len(at)-1] >= c.K/2 {
+		hs, at = append(hs, c17LiveHeap()), append(at, reads)
 	}
 	runtime.KeepAlive(tr)
 	runtime.KeepAlive(in)
-	if h1 == 0 || h2 == 0 {
-		// fewer than 2K results (filtered candidates are no results): measured too little
+	if len(hs) < 3 {
+		// fewer than 3 samples (filtered candidates are no results): measured too little
 		return obs.OK(false, append(classes, "heap-not-sampled")...)
 	}
 	obs.Count("heap_arm_reads", reads)
-	if h2 > h1 {
-		obs.Count("heap_arm_growth_bytes", int(h2-h1))
-		if h2-h1 > 64<<10 {
-			obs.Count("heap_arm_growth_over_64KiB", 1)
+	mid := len(hs) / 2
+	grow := func(a, b uint64) uint64 {
+		if b > a {
+			return b - a
 		}
+		return 0
 	}
-	if h2 > h1 && h2-h1 > c17HeapSlack {
-		return obs.Violationf("live heap held while streaming grew from %d bytes after %d Reads to %d bytes after %d Reads (+%d bytes, %d per Read; slack %d): the Transform retains something per delivered record\nshape %+v pool=%+v",
-			h1, c.K, h2, reads, h2-h1, (h2-h1)/uint64(reads-c.K), c17HeapSlack, c.Shape, c.Pool)
+	g1, g2, total := grow(hs[0], hs[mid]), grow(hs[mid], hs[len(hs)-1]), grow(hs[0], hs[len(hs)-1])
+	obs.Count("heap_arm_growth_bytes", int(total))
+	if total > 16<<10 {
+		obs.Count("heap_arm_growth_over_16KiB", 1)
+	}
+	// a retention per record grows in BOTH halves; something allocated once (a cache filling up, a pool, the runtime)
+	// shows in one of them
+	if total > c17HeapSlack && g1 > c17HeapSlack/3 && g2 > c17HeapSlack/3 {
+		return obs.Violationf("live heap held while streaming keeps growing: %v bytes after %v Reads (+%d in the first half, +%d in the second, %d bytes per Read; slack %d): the Transform retains something per delivered record\nshape %+v pool=%+v",
+			hs, at, g1, g2, total/uint64(at[len(at)-1]-at[0]), c17HeapSlack, c.Shape, c.Pool)
 	}
 	return obs.OK(ok >= 1000, classes...)
 }
